@@ -201,8 +201,8 @@ def handle : List String → String
   | ["static", "defer"] => "defer-ok"
   | _ => "bad-op"
 
-/-- counter-example lines replayed on the implementation on every run (see Witness.lean) -/
-def witnessLines : List String :=
-  ["C09 sched 1 L:0:1:100:1:0:0:0;B:0;L:0:1:100:1:0:0:0"]
+/-- no clause is violated by the current tree: nothing to replay as a counter-example (the former
+    witness line is a regression case in corpus/C09/) -/
+def witnessLines : List String := []
 
 end CaddyModel.C09
